@@ -29,16 +29,17 @@ from vf import par
 
 NEEDS_SERVICES = False
 
-EMB = (2, 3, 5, 7, 11, 13, 17, 19, 23)
+EMB = (2, 3, 5, 7, 11, 13, 17, 19, 23, 29, 31, 37, 41, 43, 47, 53)
 VALUATIONS = (
     {},                                                   # identity
     dict(zip(EMB, reversed(EMB))),
-    dict(zip(EMB, (7, 2, 13, 3, 19, 5, 23, 11, 17))),
+    dict(zip(EMB, (EMB[(7 * i + 3) % 16] for i in range(16)))),
 )
 NROWS = 3
 
 FULL = dict(E.DEFAULT_OPTS)
 NO_LIT_SHARING = dict(E.DEFAULT_OPTS, share_lits=False)
+FREE_LITS = dict(E.DEFAULT_OPTS, share_lits=False, lit_cost=0)
 AGG_OPTS = dict(E.DEFAULT_OPTS, arrays=False, structs=False, if_types=('i',), let_body_types=('i',),
                 let_value_types=('i',), share_lits=False)
 
@@ -512,7 +513,7 @@ def run_case(term, agg=None, modes=MODES):
 
 def _case_worker(job):
     size, optname, agg, shard, nshards = job
-    opts = {'full': FULL, 'nolit': NO_LIT_SHARING, 'agg': dict(AGG_OPTS, agg=agg)}[optname]
+    opts = {'full': FULL, 'nolit': NO_LIT_SHARING, 'freelit': FREE_LITS, 'agg': dict(AGG_OPTS, agg=agg)}[optname]
     roots = ('i',) if agg else E.VALUE_TYPES
     n = shared = with_lets = with_agglets = with_scanlets = nontrivial = 0
     total_lets = 0
@@ -547,10 +548,12 @@ def plan(tier):
     """[(size, grammar, agg, shards)]"""
     if tier == 'quick':
         p = [(n, 'full', None, 1) for n in range(1, 5)] + [(5, 'full', None, 16), (6, 'nolit', None, 8)]
+        p += [(n, 'freelit', None, 1) for n in range(1, 4)] + [(4, 'freelit', None, 16)]
         p += [(n, 'agg', a, 1) for n in range(2, 5) for a in ('agg', 'scan')] + [(5, 'agg', 'agg', 2), (5, 'agg', 'scan', 6)]
     else:
         p = [(n, 'full', None, 1) for n in range(1, 5)] + [(5, 'full', None, 16), (6, 'full', None, 256), (6, 'nolit', None, 8),
                                                             (7, 'nolit', None, 64)]
+        p += [(n, 'freelit', None, 1) for n in range(1, 4)] + [(4, 'freelit', None, 16), (5, 'freelit', None, 256)]
         p += [(n, 'agg', a, 1) for n in range(2, 5) for a in ('agg', 'scan')]
         p += [(5, 'agg', 'agg', 2), (5, 'agg', 'scan', 6), (6, 'agg', 'agg', 16), (6, 'agg', 'scan', 64)]
     return p
@@ -598,8 +601,10 @@ def check(tier, seed, procs):
         'samples': samples,
         'exhaustive': True,
         'bounds': ('every DAG with <= 5 nodes (full grammar, literal leaves shareable), every DAG with 6 nodes where literal '
-                   'leaves are not shared; aggregation / scan sub-grammar <= 5 nodes' if tier == 'quick' else
-                   'every DAG with <= 6 nodes (full grammar), every DAG with 7 nodes where literal leaves are not shared; '
+                   'leaves are not shared, every DAG with <= 4 non-literal nodes and any number of unshared literal leaves; '
+                   'aggregation / scan sub-grammar <= 5 nodes' if tier == 'quick' else
+                   'every DAG with <= 6 nodes (full grammar), every DAG with 7 nodes where literal leaves are not shared, '
+                   'every DAG with <= 5 non-literal nodes and any number of unshared literal leaves; '
                    'aggregation / scan sub-grammar <= 6 nodes') + f'; {len(MODES)} builds x {len(VALUATIONS)} literal valuations each',
         'programs': n,
         'programs_per_slice': per,
@@ -613,7 +618,7 @@ def check(tier, seed, procs):
                                            for k in sorted({k for r in rows for k in r['vcount']})},
     }
     vac = None
-    if with_lets < 10 or with_agg < 1 or with_scan < 1:
+    if not viols and (with_lets < 10 or with_agg < 1 or with_scan < 1):
         vac = f'renderer lifted too few bindings ({with_lets=}, {with_agg=}, {with_scan=})'
     return {
         'coverage': cov,
@@ -641,7 +646,7 @@ def _selfcheck():
         raise HarnessGap(f'scope self-check failed: {R.check_scopes(bad)}')
     bad2 = R.parse('(TableAggregate (TableRange 3 None) (Let eval __cse_1 (GetField idx (Ref row)) '
                    '(ApplyAggOp Max () ((Ref __cse_1)))))')
-    if [p[0] for p in R.check_scopes(bad2)] != ['lifted-let-wrong-context', 'unbound-ref']:
+    if [p[0] for p in R.check_scopes(bad2)] != ['lifted-let-wrong-context', 'lifted-let-used-outside-its-scope']:
         raise HarnessGap(f'agg scope self-check failed: {R.check_scopes(bad2)}')
     # enumeration self-check: sharded enumeration is a partition of the unsharded one
     a = list(E.programs(4))
